@@ -280,7 +280,6 @@ func (q *Queue) Replace(elem *queue.Elem) (replaced bool, err error) {
 }
 
 func (q *Queue) Read(pids []packets.PacketID) (elems []*queue.Elem, err error) {
-	now := time.Now()
 	q.cond.L.Lock()
 	defer q.cond.L.Unlock()
 	conn := q.pool.Get()
@@ -294,6 +293,8 @@ func (q *Queue) Read(pids []packets.PacketID) (elems []*queue.Elem, err error) {
 	if q.closed {
 		return nil, queue.ErrClosed
 	}
+	// the time the messages are handed out, not the time the caller started to wait for them
+	now := time.Now()
 	rs, err := redigo.Values(conn.Do("lrange", getKey(q.clientID), q.current, q.current+len(pids)-1))
 	if err != nil {
 		return nil, wrapError(err)
